@@ -3,12 +3,13 @@ from props import gen
 
 ENGINE = 'genscan'
 LEVEL = 'translation_validation'
-TECHNIQUE = 'static translation validation: abstract interpretation of both generated lexers to labelled transition systems, compared for equality; acyclic call graph for the stack bound'
+TECHNIQUE = 'static translation validation: abstract interpretation of both generated lexers to labelled transition systems, compared for equality with each other and (state by state) with the graph the derive prints with its debug feature; acyclic call graph for the stack bound'
 EXPLANATION = ('Translation validation on generated source: for every definition of the corpus the labelled transition system extracted (by abstract interpretation over the 256-value byte domain) from the '
                'tail-call lexer is compared for equality with the one extracted from the state-machine lexer: same root, states, self-loop byte sets, records (leaf, early/late), byte->state maps, end-of-input '
                'edges, prefix/root guards and fall-through; the shared items (_get_action, _make_error, LogosLeaf, lookup tables) must be token-identical. Both are interpreted by the same abstract machine, '
                'so equal systems yield equal results, spans and callback invocations. Stack bound: the state-machine lexer declares no state functions, never re-enters lex, and its generated items '
-               'have an acyclic call graph, so its stack depth is a constant.')
+               'have an acyclic call graph, so its stack depth is a constant.'
+               " Since the E5 engine: each back end's transition system is additionally compared, state by state, with the graph the derive printed in the same run (G19), and that graph with the reference DFA (G20).")
 
 
 def run(ctx, rep):
